@@ -170,12 +170,14 @@ def _hex_text(h):
 
 
 translate_tie.describe(PROPERTIES, "C19", "(here: the pkg/descriptor functions the renderers call: Unmarshal*, UnmarshalPhysical, ToPhysical, "
-                       "bounds, and the can.Data accessors)", translate_tie.TIE_NOTE_INT, translate_tie.TIE_NOTE_FLOAT)
+                       "bounds, the can.Data accessors, and the lookups with loops UnmarshalValueDescription/ValueDescription, "
+                       "Database.Message/Node/Signal, Message.MultiplexerSignal)",
+                       translate_tie.TIE_NOTE_INT, translate_tie.TIE_NOTE_FLOAT, translate_tie.TIE_NOTE_LOOP)
 
 
 def run(res, replay=None):
     vlib.proof_stage(res)
-    translate_tie.run_tie(res, ["descriptor", "physical"])
+    translate_tie.run_tie(res, ["descriptor", "physical", "lookup"])
     quick = res.tier == "quick"
     count = 12 if quick else 60
     states, pages, keep = (10, 24, 4) if quick else (300, 400, 40)
